@@ -1,0 +1,7 @@
+//go:build verif
+
+package bech32
+
+// VerifPolymod exposes the bech32 checksum remainder function to the
+// runtime-monitoring harness.  It is compiled only with -tags verif.
+func VerifPolymod(v []int) int { return bech32Polymod(v) }
